@@ -159,6 +159,17 @@ func ioGoverned(c *core.Ctx, in ssa.Instruction) string {
 	return ""
 }
 
+// inventoryCeil: number of non-io fail-stop sites per exempted function when it was confirmed
+// (functions not listed: 1).
+var inventoryCeil = map[string]int{
+	"(*coreV2/minter.Blockchain).Commit":                        6,
+	"(*coreV2/state/swap.PairV2).BuyWithOrders":                 2,
+	"(*coreV2/state/swap.PairV2).SellWithOrders":                3,
+	"(*coreV2/state/swap.PairV2).calculateBuyForSellWithOrders": 3,
+	"(*coreV2/state/swap.PairV2).calculateSellForBuyWithOrders": 3,
+	"(*coreV2/state/waitlist.WaitList).Delete":                  2,
+}
+
 func isErrorType(t types.Type) bool {
 	n, ok := t.(*types.Named)
 	return ok && n.Obj().Pkg() == nil && n.Obj().Name() == "error"
@@ -610,6 +621,22 @@ func runC07(c *core.Ctx) {
 			continue
 		}
 		name := core.ShortFn(fn)
+		nonIO := 0
+		for _, ps := range sites {
+			if ps.io == "" {
+				nonIO++
+			}
+		}
+		// a function exempted by the table (or as a storage loader) was confirmed with a certain
+		// number of fail-stop sites; one more is a new way to stop the node and has to be read
+		if nonIO > 0 && !legacyV1(fn) && (inventoryTable[name] != "" || (inStoragePkg(fn) && isStorageLoader(fn))) {
+			ceil := 1
+			if k, ok := inventoryCeil[name]; ok {
+				ceil = k
+			}
+			c.Check(nonIO <= ceil, "C07.inventory", name+"/site-count", fn.Pos(), fmt.Sprintf("%d fail-stop site(s), as confirmed", nonIO),
+				fmt.Sprintf("%s has %d explicit panic/exit sites that are not governed by a storage or encoder error; %d were there when the function was confirmed as a deliberate fail-stop — the new one is a new way to stop the node (on restart paths: a node that cannot come back) and is not covered by that confirmation", name, nonIO, ceil))
+		}
 		for _, ps := range sites {
 			nSites++
 			key := name + "/" + ps.what
